@@ -350,8 +350,20 @@ def _pair_rows(args):
             refusals.append([src, rec['status']])
         for kind, top, second in (('lui+lw/position', 'lui', 'lw x10, x9, %%lo(%%position(L, %s))'),
                                   ('auipc+addi/position', 'auipc', 'addi x9, x9, %%lo(%%position(L, %s))')):
-            b = spell(base)
-            src = ('%s x9, %%hi(%%position(L, %s))\n' % (top, b)) + (second % b) + ('\ninclude_bytes %s\nL:\n' % fn)
+            # the base as a literal, or as an expression whose top-level operator binds looser than + (the value is the same)
+            form = (v // 7) % 5
+            pre = ''
+            if form == 1:
+                pre, b = 'BK = %s\n' % spell(base | 0x7bc), 'BK & 0xfffff000'
+            elif form == 2:
+                pre, b = 'PG = %s\n' % spell(base >> 12), 'PG << 12'
+            elif form == 3:
+                b = '%s | 0' % spell(base)
+            elif form == 4:
+                pre, b = 'BK = %s\n' % spell(base ^ 0x55), 'BK ^ 0x55'
+            else:
+                b = spell(base)
+            src = pre + ('%s x9, %%hi(%%position(L, %s))\n' % (top, b)) + (second % b) + ('\ninclude_bytes %s\nL:\n' % fn)
             rec = impl.assemble_recorded(src, compress=compress)
             if rec['status'] == 'ok':
                 insts = _split_insts(rec['out'][:8])
